@@ -23,6 +23,8 @@ def gen_cases(seed, tier, n):
         c = tracegen.gen_case(seed, i, tracegen.PROFILES[profs[i % len(profs)]])
         rng = random.Random(seed * 7919 + i)
         c["params"] = {"include_last": rng.random() < 0.5}
+        if i % 8 == 6:
+            fw.set_quarter_us(c)           # quarter-microsecond resolution (framework.resolution): step containment on fractional times
         out.append(c)
     return out
 
